@@ -76,6 +76,9 @@ def checkBlocks (codec : String) (sync : Bytes) : List (List Bytes) → List Byt
 
 def c09 (op : String) (args : List Sexp) : Verdict :=
   if op != "enc" then .bad s!"unknown op {op}" else
+  match args.getLast? with
+  | some (.list (.atom "panic" :: why)) => .oracle s!"an Encode / Flush call panicked: {why}"
+  | _ =>
   match parseEnc args with
   | none => .bad "parse"
   | some c =>
@@ -112,6 +115,9 @@ def replaceSync (a b : Bytes) (isHeader : Bool) (chunk : Bytes) : Bytes :=
 
 def c16 (op : String) (args : List Sexp) : Verdict :=
   if op != "enc" then .bad s!"unknown op {op}" else
+  match args.getLast? with
+  | some (.list (.atom "panic" :: why)) => .oracle s!"an Encode / Flush call panicked: {why}"
+  | _ =>
   match parseEnc args with
   | none => .bad "parse"
   | some c =>
